@@ -8,8 +8,7 @@ from harness import synth, impl_kernel as ik, impl_fuse as fz  # noqa: E402
 import numpy as np  # noqa: E402
 
 
-def main():
-    run = Run('C07')
+def body(run):
     run.build(extra_targets=['theories/Corr/CheckC01.v'])
     rng = run.rng('scale')
     # (a) the model the theorems are about is the code: fit on base and on scaled inputs, inside Coq
@@ -90,8 +89,7 @@ def main():
                         '(exercised exactly by the power-of-two paired runs, not proved)',
                         'np.std / np.percentile are positively homogeneous (C07_block_norm hypothesis; exercised)']
     run.trusted += ['GDAL reproject / fillnodata / NumPy std, percentile: oracles with hypothesis H_lin']
-    run.finish()
 
 
 if __name__ == '__main__':
-    main()
+    Run('C07').guard(body)
